@@ -34,6 +34,9 @@ def run(repo, run, tier):
     # found crossings are discarded in one place only (after the first terminal event): that must act on time-ordered arrays, all three alike
     from .c09 import truncation
     truncation(repo, run, rule_id="C08.8")
+    # a located crossing is recorded only if it passes the in-step test: the test must be the mirrored pair selected by the sign of THIS step
+    from .c07 import in_step_test
+    in_step_test(repo, run, m, rule_id="C08.9")
 
 
 def pruning(repo, run, m):
